@@ -285,6 +285,17 @@ def list_expression_bracketed(expression: BaseSegment) -> list[BaseSegment]:
     bracketeds = list(expression.get_children("bracketed"))
     for tuple_segment in expression.get_children("tuple"):
         bracketeds += tuple_segment.get_children("bracketed")
+    # a subquery deeper in the condition: x > ALL (SELECT ...), a = 1 AND (b IN (SELECT ...) OR c = 2)
+    found = {id(extract_innermost_bracketed(b)) for b in bracketeds if is_subquery(b)}
+    for bracketed in expression.recursive_crawl(
+        "bracketed", no_recursive_seg_type="select_statement"
+    ):
+        if (
+            is_bracketed_subquery(bracketed)
+            and id(extract_innermost_bracketed(bracketed)) not in found
+        ):
+            found.add(id(extract_innermost_bracketed(bracketed)))
+            bracketeds.append(bracketed)
     return bracketeds
 
 
